@@ -638,8 +638,13 @@ class _Interpolator(object):
             idcs[idcs > cvec.size - 2] = cvec.size - 2
             index_vecs.append(idcs)
 
-            norm_distances.append((xi - cvec[idcs]) /
-                                  (cvec[idcs + 1] - cvec[idcs]))
+            if cvec.size == 1:
+                # A single node: there is no cell to normalize by (lower
+                # and upper neighbor are both that node)
+                norm_distances.append(np.zeros_like(xi))
+            else:
+                norm_distances.append((xi - cvec[idcs]) /
+                                      (cvec[idcs + 1] - cvec[idcs]))
 
         return index_vecs, norm_distances
 
